@@ -5,11 +5,11 @@ import json, os, subprocess, sys, glob, time
 V=os.path.dirname(os.path.dirname(os.path.abspath(__file__)))
 ids=sys.argv[1:] or sorted(os.path.basename(d) for d in glob.glob(V+"/seeded/C*"))
 results=json.load(open(V+"/seeded/RESULTS.json")) if os.path.exists(V+"/seeded/RESULTS.json") else {}
-head=subprocess.run(["git","-C","/repo","rev-parse","--short","HEAD"],capture_output=True,text=True).stdout.strip()
+head=subprocess.run(["git","-C","/repo","rev-parse","--short","HEAD"],capture_output=True,text=True,errors="replace").stdout.strip()
 for sid in ids:
     meta=json.load(open(f"{V}/seeded/{sid}/meta.json"))
     t0=time.time()
-    out=subprocess.run([V+"/tools/mutcheck.sh",f"{V}/seeded/{sid}/patch.diff"]+meta["checks_to_run"],capture_output=True,text=True).stdout
+    out=subprocess.run([V+"/tools/mutcheck.sh",f"{V}/seeded/{sid}/patch.diff"]+meta["checks_to_run"],capture_output=True,text=True,errors="replace").stdout
     det={}
     cur=None
     reasons={}
